@@ -27,6 +27,7 @@ import os
 import string
 import subprocess
 import sys
+import time
 
 STREAMS = ['validators-exhaustive', 'validators-random', 'validators-boundary',
            'grammar-lean-vs-python', 'message-constructors', 'role-history', 'neighbour-history']
@@ -185,13 +186,15 @@ def accept_key(v, s):
 
 
 def _viol(ctx, key, what, inp=None, observed=None, expected=None):
-    """ctx.violation + remember, per key, the smallest HISTORY that showed it (see settle)"""
+    """ctx.violation + remember, per key, the smallest and the first HISTORY that showed it (see settle)"""
     ctx.violation(key, what, inp=inp, observed=observed, expected=expected)
     if isinstance(inp, dict) and inp.get('kind') == 'history':
         hist = ctx.__dict__.setdefault('_c18_hist', {})
-        old = hist.get(key)
-        if old is None or len(inp['steps']) < len(old['input']['steps']):
-            hist[key] = {'input': inp, 'what': what, 'observed': observed, 'expected': expected}
+        rec = {'input': inp, 'what': what, 'observed': observed, 'expected': expected,
+               'pos': ctx.__dict__.get('_c18_pos')}
+        old = hist.setdefault(key, {'first': rec, 'smallest': rec})
+        if len(inp['steps']) < len(old['smallest']['input']['steps']):
+            old['smallest'] = rec
 
 
 def oracle_validator(ctx, v, s, r, g, inp):
@@ -892,9 +895,12 @@ def run_histories(ctx, marshal, message, stream, hists):
     out = ctx.model(lines)
     mget = dict(zip(lines, out)) if out is not None else {}
     seen = set()
+    log = ctx.__dict__.setdefault('_c18_log', [])
     for h in hists:
         steps = h['steps']
+        log.append(steps)
         for k, st in enumerate(steps):
+            ctx.__dict__['_c18_pos'] = (len(log) - 1, k)
             judge_step(ctx, marshal, message, stream, st, mget.get(step_line(st)),
                        {'kind': 'history', 'steps': steps[:k + 1]})
             names = [st['s']] if st['do'] == 'v' else [x for x in st['args'].values() if x is not None]
@@ -920,7 +926,7 @@ def _reproduces(ctx, inp, key):
             'print("KEYS " + json.dumps([v["key"] for v in c.violations]))\n') % (verif, ctx.repo, ctx.repo)
     try:
         p = subprocess.run([sys.executable, '-c', code], input=json.dumps(inp).encode('utf-8'),
-                           stdout=subprocess.PIPE, stderr=subprocess.PIPE, timeout=120)
+                           stdout=subprocess.PIPE, stderr=subprocess.PIPE, timeout=30)
         for ln in p.stdout.decode('utf-8', 'replace').splitlines():
             if ln.startswith('KEYS '):
                 return key in json.loads(ln[5:])
@@ -931,19 +937,57 @@ def _reproduces(ctx, inp, key):
 
 def settle(ctx):
     """ctx.violation keeps the SMALLEST input per key, and a single call is smaller than a history.  A defect
-    that needs an earlier call does not show when that single call is replayed in a fresh process: for every
-    key that was also seen inside a history, check the single-call exemplar in a fresh process and fall back to
-    the smallest history (steps 0..k) when it does not reproduce."""
+    that needs an earlier call does not show when that input is replayed in a fresh process.  For every key that
+    was seen inside a history: try the exemplar in a fresh process; when it does not reproduce fall back to the
+    smallest history that showed it (steps 0..k), the first one, then that one preceded by the histories that ran
+    before it in this process (a leak may cross histories; the latest sufficient start is found by bisection) -
+    the first candidate that reproduces in a fresh process becomes the replay input."""
     hist = getattr(ctx, '_c18_hist', {})
+    log = getattr(ctx, '_c18_log', [])
+    deadline = time.time() + 40                 # fresh processes cost time: only in runs that report something
+
+    def fresh_run(inp, key):
+        if time.time() > deadline:
+            ctx.stat('settle:out-of-time')
+            return False
+        return _reproduces(ctx, inp, key)
+
     for v in ctx.violations:
-        h = hist.get(v['key'])
-        if h is None or (isinstance(v['input'], dict) and v['input'].get('kind') == 'history'):
+        rec = hist.get(v['key'])
+        if rec is None or time.time() > deadline or fresh_run(v['input'], v['key']):
             continue
-        if not _reproduces(ctx, v['input'], v['key']):
-            v.update(input=h['input'], observed=h['observed'], expected=h['expected'],
-                     what=h['what'] + ' - at the last step of the stored history (the call alone, in a fresh '
-                                      'process, does not show it)')
-            ctx.stat('exemplar-replaced-by-history')
+        cands = [rec['smallest']] + ([rec['first']] if rec['first'] is not rec['smallest'] else [])
+        pos = rec['first'].get('pos')
+
+        def combined(lo):
+            hi, k = pos
+            steps = [st for h in log[lo:hi] for st in h] + log[hi][:k + 1]
+            return dict(rec['first'], input={'kind': 'history', 'steps': steps})
+
+        chosen = None
+        for c in cands:
+            if c['input'] is not v['input'] and fresh_run(c['input'], v['key']):
+                chosen = c
+                break
+        if chosen is None and pos and pos[0] > 0 and fresh_run(combined(0)['input'], v['key']):
+            lo, hi = 0, pos[0]              # the latest start from which the histories still lead to the failure
+            while hi - lo > 1:
+                mid = (lo + hi) // 2
+                if fresh_run(combined(mid)['input'], v['key']):
+                    lo = mid
+                else:
+                    hi = mid
+            chosen = combined(lo)
+            both = dict(rec['first'], input={'kind': 'history', 'steps': log[lo] + log[pos[0]][:pos[1] + 1]})
+            if fresh_run(both['input'], v['key']):          # the history that starts it + the one that fails
+                chosen = both
+        if chosen is None:
+            ctx.stat('exemplar-not-reproducible-in-a-fresh-process')
+            continue
+        v.update(input=chosen['input'], observed=chosen['observed'], expected=chosen['expected'],
+                 what=chosen['what'] + ' - at the last step of the stored history (the call alone, in a fresh '
+                                       'process, does not show it)')
+        ctx.stat('exemplar-replaced-by-history')
 
 
 # ------------------------------------------------------------------ entry points
